@@ -177,6 +177,7 @@ class SimEnv:
         self.clock = SimClock(spec.get("clock"), self.events)
         self.dir = None
         self.registries = []
+        self.canon = None
         self.glob_calls = []
         self.glob_rng = random.Random(spec.get("glob_seed", 0))
 
@@ -261,6 +262,13 @@ class SimEnv:
                 super().__init__(*a, **kw)
                 env.registries.append(self)
 
+            def generate_names(self):
+                super().generate_names()
+                if env.spec.get("canon"):
+                    # canonical graph of what was inferred, taken BEFORE code generation rewrites the class names
+                    from .pipeline import canonical_graph
+                    env.canon = canonical_graph(self)
+
         saved = {k: getattr(cli, k, None) for k in ("Path", "datetime", "ModelRegistry")}
         had_open = "open" in cli.__dict__
         old_argv, old_out, old_err, old_cwd = sys.argv, sys.stdout, sys.stderr, os.getcwd()
@@ -283,7 +291,8 @@ class SimEnv:
             try:
                 if self.spec.get("crash_at") is not None or self.spec.get("count_lines"):
                     tracer = self.tracer = CrashTracer(self.spec.get("crash_at"),
-                                                       watch=("run", "generate_code", "generate", "parse_args"))
+                                                       watch=("run", "generate_code", "generate", "parse_args"),
+                                                       watch_path=out_path if self.spec.get("count_lines") else None)
                     with tracer:
                         cli.main()
                 else:
@@ -314,6 +323,7 @@ class SimEnv:
             rec["line_events"] = tracer.count
             rec["crash_fired"] = tracer.fired
             rec["marks"] = tracer.marks
+            rec["out_changed_at"] = tracer.changed_at
         if out_path:
             if os.path.lexists(out_path) and os.path.isfile(out_path):
                 with open(out_path, "rb") as fh:
@@ -334,9 +344,8 @@ def job_cli(spec):
     env = SimEnv(spec)
     try:
         rec = env.run()
-        if spec.get("canon") and env.registries and rec["status"] == 0:
-            from .pipeline import canonical_graph
-            rec["canon"] = canonical_graph(env.registries[-1])
+        if spec.get("canon") and env.canon is not None and rec["status"] == 0:
+            rec["canon"] = env.canon
         return rec
     finally:
         env.cleanup()
